@@ -1,9 +1,10 @@
 #!/bin/bash
-# usage: tools/reeval_scratch.sh [ids…] — regression sweep of the kept seeded changes WITHOUT touching /repo or this checkout:
-# clones /verif (committed state) to /tmp/vsweep/verif, makes a scratch worktree of /repo HEAD at /tmp/vsweep/repo, runs
-# tools/reeval_all.py there (VERIF_REPO=/tmp/vsweep/repo), copies the refreshed seeded/*/meta.json back, removes both.
+# usage: [VSWEEP=/tmp/vsweepN] tools/reeval_scratch.sh [ids…] — regression sweep of the kept seeded changes WITHOUT touching
+# /repo or this checkout: clones /verif (committed state) to $VSWEEP/verif, makes a scratch worktree of /repo HEAD at
+# $VSWEEP/repo, runs tools/reeval_all.py there (VERIF_REPO=$VSWEEP/repo), copies the refreshed meta.json of the ids it ran
+# back to /verif/seeded, removes both. Several sweeps over disjoint id sets may run in parallel with different $VSWEEP.
 set -e
-S=/tmp/vsweep
+S=${VSWEEP:-/tmp/vsweep}
 rm -rf $S/verif; git -C /repo worktree remove --force $S/repo 2>/dev/null || true; mkdir -p $S
 git clone -q /verif $S/verif
 rsync -a /verif/lean/.lake $S/verif/lean/ 2>/dev/null || true
@@ -12,7 +13,7 @@ cd $S/verif
 export VERIF_REPO=$S/repo
 ./setup.sh >/dev/null 2>&1 || { echo "setup failed"; exit 2; }
 rc=0
-python3 tools/reeval_all.py "$@" || rc=$?
-for d in seeded/*/; do cp $d/meta.json /verif/$d/meta.json; done
+python3 tools/reeval_all.py "$@" | tee $S/out.txt || rc=$?
+for id in $(awk '{print $1}' $S/out.txt); do [ -f seeded/$id/meta.json ] && cp seeded/$id/meta.json /verif/seeded/$id/meta.json; done
 cd /; rm -rf $S/verif; git -C /repo worktree remove --force $S/repo
 exit $rc
